@@ -14,25 +14,16 @@
    The two ingredients of the repair are parameters of the events below (`u`: the trigger exists, `c`: the
    flag of the validation outcome is computed), so that every shape of the source can be named:
    (false, false) = repo d760e3e .. 3ce20a7, (true, false) = trigger only, (false, true) = computed flag only,
-   (true, true) = the repair.  GenSched says which one the repository has
-   (trg_undefer_on_reattach, validate_unchanged_computed). *)
+   (true, true) = the repair (repo 84081f2).  A third parameter `r` (dstepR) names the refinement of the trigger: it
+   wakes only the consumers that have no unusable dynamic input left.  GenSched says which shape the repository has
+   (trg_undefer_on_reattach, trg_undefer_strict, validate_unchanged_computed). *)
 From Coq Require Import List NArith Bool Arith.
 From SV Require Import lib.Bytes lib.SqlExpr gen.GenSched model.Sched.
 Import ListNotations.
 Open Scope N_scope.
 
-(* a file row that a consumer can use: attached and CONFIRMED / BUILT (Scheduler._derive_job:
-   `not detached and file_state in (BUILT, CONFIRMED)`) *)
-Definition file_usable (f : file) : bool := negb (f_detached f) && mem_N (f_state f) dyn_available_states.
 Definition file_available (f : file) : bool := mem_N (f_state f) dyn_available_states.
-
-Definition src_is (p : file -> bool) (g : graph) (k : N) : bool :=
-  existsb (fun f => (f_key f =? k) && p f) (g_files g).
-
-(* Step.has_unusable_dynamic_input (the repair; query pinned by the translator) = the negation of
-   dynamic_inputs_ready in Scheduler._derive_job *)
-Definition unusable_dyn (g : graph) (k : N) : bool :=
-  existsb (fun d => (d_snk d =? k) && d_dyn d && src_is (fun f => negb (file_usable f)) g (d_src d)) (g_deps g).
+(* file_usable, src_is, unusable_dyn (Step.has_unusable_dynamic_input): model/Sched.v *)
 (* Step.has_unavailable_dynamic_input (mark_completed): the state only *)
 Definition unavailable_dyn (g : graph) (k : N) : bool :=
   existsb (fun d => (d_snk d =? k) && d_dyn d && src_is (fun f => negb (file_available f)) g (d_src d)) (g_deps g).
@@ -44,10 +35,11 @@ Definition defer_justified_b (g : graph) : bool :=
 Definition parked_for_nothing (g : graph) (s : step) : bool :=
   (s_state s =? ST_PENDING) && s_deferred s && negb (unusable_dyn g (s_key s)).
 
-(* UPDATE node SET detached = b with both row triggers; `u`: step_node_undefer_reattached exists *)
-Definition set_detached_nodes_with (u : bool) (g : graph) (ks : list N) (b : bool) : graph :=
+(* UPDATE node SET detached = b with both row triggers; `u`: step_node_undefer_reattached exists, `r`: in its
+   refined form (only consumers without an unusable dynamic input are woken) *)
+Definition set_detached_nodes_with (u r : bool) (g : graph) (ks : list N) (b : bool) : graph :=
   let g' := set_detached_nodes_core g ks b in
-  if u && negb b then undefer_consumers g' (reattached_nodes g ks) else g'.
+  if u && negb b then undefer_consumers_with r g' (reattached_nodes g ks) else g'.
 
 (* Workflow.mark_step_pending: RUNNING and CHECKING steps are skipped *)
 Definition wake_step (g : graph) (k : N) : graph :=
@@ -76,7 +68,7 @@ Inductive devent :=
 Definition validate_flag (c : bool) (g : graph) (k : N) : bool :=
   if c then unusable_dyn g k else validate_unchanged_deferred.
 
-Definition dstep (u c : bool) (g : graph) (e : devent) : graph :=
+Definition dstepR (u r c : bool) (g : graph) (e : devent) : graph :=
   match e with
   | DSetState k st => set_step_state g k st false
   | DValidateUnchanged k => set_step_state g k validate_unchanged_state (validate_flag c g k)
@@ -86,16 +78,19 @@ Definition dstep (u c : bool) (g : graph) (e : devent) : graph :=
   | DFileState f st h =>
       let g1 := set_file_state g f st h in
       if mem_N st dyn_available_states then wake_consumers g1 f else g1
-  | DSetDetached ks b => set_detached_nodes_with u g ks b
+  | DSetDetached ks b => set_detached_nodes_with u r g ks b
   | DInsDep d => ins_dep g d
   | DResetStep k st dynonly => set_step_state (drop_inputs dynonly g k) k st false
   | DMeta => match update_meta g with Some g' => g' | None => g end
   end.
-Definition drun (u c : bool) (evs : list devent) (g : graph) : graph := fold_left (dstep u c) evs g.
+Definition drunR (u r c : bool) (evs : list devent) (g : graph) : graph := fold_left (dstepR u r c) evs g.
+(* the shapes with the unconditional trigger (repo 84081f2 and what came before) *)
+Definition dstep (u c : bool) : graph -> devent -> graph := dstepR u false c.
+Definition drun (u c : bool) : list devent -> graph -> graph := drunR u false c.
 
 (* the shape of the repository *)
-Definition dstep_repo := dstep trg_undefer_on_reattach validate_unchanged_computed.
-Definition drun_repo := drun trg_undefer_on_reattach validate_unchanged_computed.
+Definition dstep_repo := dstepR trg_undefer_on_reattach trg_undefer_strict validate_unchanged_computed.
+Definition drun_repo := drunR trg_undefer_on_reattach trg_undefer_strict validate_unchanged_computed.
 
 (* ---- the history of D39 (findings.d/C10-D39.json), as a snapshot and events ----
    keys: 0 root, 1 ./plan.py (SUCCEEDED), 2 q (child of plan, PENDING: its hash check failed, prod and
@@ -121,3 +116,17 @@ Definition d39_sequential : list devent :=
 Definition d39_race : list devent :=
   [DSetState 3 ST_CHECKING; DSetState 2 ST_RUNNING; DSetDetached [4; 10] false; DValidateUnchanged 3;
    DSetState 2 ST_SUCCEEDED; DMeta].
+
+(* ---- defer and re-attachment in either order (c02d's pair, D39-refine) ----
+   S (3, RUNNING, child of plan 1) has amended f (10), an orphan: UNDECLARED and detached.  r1 = S is deferred
+   (mark_completed(None, wants_defer)); r2 = another running step declares f (static: UNCONFIRMED; the node is
+   re-attached, the file state changes in the same transaction). *)
+Definition g_comm : graph :=
+  mkGraph [d39_step 1 ST_RUNNING ND_PLAN (Some 0) false false;
+           d39_step 3 ST_RUNNING ND_DEFAULT (Some 1) false false]
+          [mkFile 10 [102] FS_UNDECLARED true None false] [mkOnode 0 false None]
+          [mkDep 10 3 true] [] [] [] ND_OPTIONAL.
+Definition comm_r1 : list devent := [DDefer 3 true].
+Definition comm_r2 : list devent := [DSetDetached [10] false; DFileState 10 FS_UNCONFIRMED false].
+Definition deferred_of (g : graph) (k : N) : bool :=
+  match find_step g k with Some s => s_deferred s | None => false end.
